@@ -145,6 +145,7 @@ func TestVerifC08(t *testing.T) {
 		root := filepath.Join(dir, "c08")
 		os.RemoveAll(root)
 		m.Write(root)
+		var lastSys sysfs.System
 		build := func(policy int32, rot int32) CPUAllocator {
 			atomic.StoreInt32(&mapiter.Policy, policy)
 			atomic.StoreInt32(&mapiter.RotateBy, rot)
@@ -155,6 +156,7 @@ func TestVerifC08(t *testing.T) {
 			if err != nil {
 				t.Fatalf("discover %s: %v", spec.Name, err)
 			}
+			lastSys = sys
 			return NewCPUAllocator(sys)
 		}
 		type variant struct {
@@ -170,6 +172,10 @@ func TestVerifC08(t *testing.T) {
 		for _, v := range vars {
 			v.a = build(v.policy, v.rot)
 		}
+		// an allocator without any history: built anew for every single request (on the system discovered last), so that an
+		// answer that depends on what the long-lived allocators were asked before shows as a disagreement
+		freshSys := lastSys
+		vars = append(vars, &variant{"no-history", mapiter.Sorted, 0, nil})
 		online := m.OnlineCPUs()
 		n := len(online)
 		for mask := 0; mask < 1<<uint(n); mask++ {
@@ -211,6 +217,13 @@ func TestVerifC08(t *testing.T) {
 								atomic.StoreInt32(&mapiter.RotateBy, v.rot)
 								var res, after cpuset.CPUSet
 								var err error
+								if v.name == "no-history" {
+									if spec.Name == "no-system" {
+										v.a = NewCPUAllocator(nil)
+									} else {
+										v.a = NewCPUAllocator(freshSys)
+									}
+								}
 								p, msg, where := mc.Guard(func() { res, after, err = in.call(v.a) })
 								w.Res.Evaluations++
 								if p {
